@@ -518,6 +518,89 @@ def r10_21(run, model):
            witness="`while i < string_len(s) { string_get(s, i); i = i + 1 }` over \"h\u00e9llo\": the length is 6 bytes, the last index asks for the 6th of 5 characters - index out of range at run time")
 
 
+def r10_22(run, model):
+    run.rule("R10.22", "a numeric literal node holds what was written: in ast::lower every construction of an integer / float literal node "
+                       "(ast::Expr::EInt .. EUInt64, EFloat ..) sits in the arm that reads the literal token of that kind (`cst::Expr::Int8Expr(it)` "
+                       "..), directly or in a helper only that arm calls - the front end does not compute literals (no folding of a sign, no "
+                       "wrap-around at lowering time): range checks and typing see the digits of the source")
+    LOWER = "crates/ast/src/lower.rs"
+    LIT = re.compile(r"^E(U?Int(8|16|32|64)?|Float(32|64)?)$")
+    sites = {}
+    for f in model.fns(LOWER):
+        if f.body is None:
+            continue
+        for st in S.find(f.body, "Struct"):
+            if LIT.match(st["segs"][-1]) and "Expr" in st["segs"]:
+                sites[tuple(st["sp"])] = (f, st, False)
+    if not sites:
+        raise AnalysisIncomplete("no literal node is built in ast::lower")
+    for f in model.fns(LOWER):
+        if f.body is None:
+            continue
+        g = model.inlined_fn(f)
+        par = S.Parents(g.body)
+        for st in S.find(g.body, "Struct"):
+            if not (LIT.match(st["segs"][-1]) and "Expr" in st["segs"]):
+                continue
+            key = tuple(getattr(st["sp"], "orig", None) or st["sp"])
+            if key not in sites:
+                continue
+            kind = st["segs"][-1][1:]
+            for a in par.ancestors(st):
+                if a["k"] == "Arm" and re.search(r"cst::Expr::" + kind + r"Expr\b", S.norm_ws(run.facts.text(LOWER, a["pat"]["sp"]))):
+                    sites[key] = (sites[key][0], sites[key][1], True)
+                    break
+    for key, (f, st, ok) in sorted(sites.items()):
+        run.ob("R10.22", f"{f.name}|{st['segs'][-1]} is built from its token", ok, site(LOWER, st["sp"]),
+               "inside the arm for the literal token of that kind" if ok else "built outside the arm that reads the token: a computed literal",
+               witness="`-300u8`: the sign is folded into the literal as (-300) mod 256 = 212; the range check that rejects 300u8 never sees 300")
+    run.floor("literal nodes built in ast::lower", len(sites), 10)
+
+
+def _cast_keeps(src, tgt):
+    """a value of the width tag `src` (i8..u64, f32, f64) survives `as tgt`; None when tgt is no primitive number type"""
+    sk, sb = src[0], int(src[1:])
+    m = re.fullmatch(r"([iuf])(8|16|32|64|128|size)", tgt)
+    if not m:
+        return None
+    tk, tb = m.group(1), (64 if m.group(2) == "size" else int(m.group(2)))
+    if sk == "f":
+        return tk == "f" and tb >= sb
+    if tk == "f":
+        return sb <= (24 if tb == 32 else 53)
+    if sk == "u":
+        return (tk == "u" and tb >= sb) or (tk == "i" and tb > sb)
+    return tk == "i" and tb >= sb
+
+
+def r10_23(run, model):
+    run.rule("R10.23", "no cast loses the value of its width: in a match arm whose pattern carries exactly one numeric width tag (the arms "
+                       "R10.1 looks at) every `as T` to a primitive number type can represent every value of that width - `Prim::UInt64 { value } "
+                       "=> value as i64` turns the upper half of uint64 into negative numbers (R10.1 leaves casts out; this is their rule)")
+    n = 0
+    for rel in model.src_files():
+        for fn in model.fns(rel):
+            if fn.body is None:
+                continue
+            for mt in S.find(fn.body, "Match"):
+                for arm in mt["arms"]:
+                    pt = tags(run.facts.text(rel, arm["pat"]["sp"]))
+                    if len(pt) != 1:
+                        continue
+                    w = next(iter(pt))
+                    for c in S.find(arm["body"], "Cast"):
+                        t = (c["ty"] or "").replace(" ", "")
+                        r = _cast_keeps(w, t)
+                        if r is None:
+                            continue
+                        n += 1
+                        run.ob("R10.23", f"{fn.qual}|arm {w}: `as {t}` keeps the value", r, site(rel, c["sp"]),
+                               f"`{S.norm_ws(run.facts.text(rel, c['sp']))[:60]}` in the arm for {w}",
+                               witness="let big: uint64 = 18446744073709551615u64 is emitted as `var big uint64 = -1` (Go: constant -1 overflows uint64); "
+                                       "`match x { 9223372036854775808u64 => .. }` becomes `case -9223372036854775808:`")
+    run.floor("casts in single-width arms", n, 2)
+
+
 def r10_15(run, model):
     run.rule("R10.15", "literal text is read one way: the type checker validates a literal and the TAST builder parses it again on its own, so "
                        "every place that turns numeric literal text into a number (`.parse()` in typer/check.rs, typer/tast_builder.rs and the "
@@ -698,6 +781,8 @@ def run(run, model):
     run.try_rule(r10_13, model)
     run.try_rule(r10_14, model)
     run.try_rule(r10_21, model)
+    run.try_rule(r10_22, model)
+    run.try_rule(r10_23, model)
     run.try_rule(r10_6, model)
     run.try_rule(r10_7, model)
     run.try_rule(r10_8, model)
